@@ -31,6 +31,10 @@ pub struct HcCase {
     /// builder call order (gen::apply_in_order)
     #[serde(default)]
     pub setter_order: u8,
+    /// the settings are collected in a HealthCheckConfig and handed to the wrapper builder with
+    /// with_config() instead of being set on the wrapper builder one by one
+    #[serde(default)]
+    pub via_config: bool,
     /// after each round: (use get_usable, number of calls)
     pub bursts: Vec<(bool, u8)>,
 }
@@ -62,10 +66,10 @@ fn case_strategy(tier: Tier) -> BoxedStrategy<HcCase> {
             1 => prop::collection::vec(prop::collection::vec(result, 5..=max_checks), 6..=9),
         ],
         prop::collection::vec((any::<bool>(), 1u8..=9), 1..=max_checks),
-        (1u64..=70, prop::bool::weighted(0.15), prop_oneof![1 => Just(0u8), 1 => 0u8..12]),
+        (1u64..=70, prop::bool::weighted(0.15), prop_oneof![1 => Just(0u8), 1 => 0u8..12], prop::bool::weighted(0.3)),
     )
         .prop_map(
-            |(failure_threshold, success_threshold, interval, timeout, initial_delay, strategy, mut scripts, bursts, (slow_ms, all_slow, setter_order))| {
+            |(failure_threshold, success_threshold, interval, timeout, initial_delay, strategy, mut scripts, bursts, (slow_ms, all_slow, setter_order, via_config))| {
                 if all_slow {
                     // every check of every resource takes `slow_ms` (still below the timeout)
                     for s in scripts.iter_mut() {
@@ -89,6 +93,7 @@ fn case_strategy(tier: Tier) -> BoxedStrategy<HcCase> {
                 bursts,
                 slow_ms,
                 setter_order,
+                via_config,
                 }
             },
         )
@@ -239,7 +244,24 @@ async fn interp(case: &HcCase) -> Verdict {
         case.failure_threshold,
         case.success_threshold,
     );
-    let mut b = crate::gen::apply_in_order(
+    let mut b = if case.via_config {
+        // the other construction path: a complete HealthCheckConfig handed over
+        let cfg = crate::gen::apply_in_order(
+            tower_resilience_healthcheck::HealthCheckConfig::builder(),
+            vec![
+                Box::new(move |b| b.interval(Duration::from_millis(iv))),
+                Box::new(move |b| b.timeout(Duration::from_millis(to))),
+                Box::new(move |b| b.initial_delay(Duration::from_millis(idl))),
+                Box::new(move |b| b.failure_threshold(ft)),
+                Box::new(move |b| b.success_threshold(st)),
+                Box::new(move |b| b.selection_strategy(strategy)),
+            ],
+            case.setter_order,
+        )
+        .build();
+        HealthCheckWrapper::<usize, Checker>::builder().with_checker(checker).with_config(cfg)
+    } else {
+        crate::gen::apply_in_order(
         HealthCheckWrapper::<usize, Checker>::builder().with_checker(checker),
         vec![
             Box::new(move |b| b.with_interval(Duration::from_millis(iv))),
@@ -250,7 +272,8 @@ async fn interp(case: &HcCase) -> Verdict {
             Box::new(move |b| b.with_selection_strategy(strategy)),
         ],
         case.setter_order,
-    );
+    )
+    };
     for r in 0..n {
         b = b.with_context(r, format!("res{r}"));
     }
